@@ -7,6 +7,8 @@ echo "| seed | property | existing suite with change | demo with / without chang
 echo "|---|---|---|---|---|---|" >> seeded/MATRIX.md
 for d in seeded/C*/; do
   name=$(basename $d); id=${name%%-*}
+  # a change that breaks a neighbouring property instead of the one it was aimed at
+  [ -f "$d/CHECKED_BY" ] && id=$(cat "$d/CHECKED_BY")
   [ -f "$d/patch.diff" ] || continue
   if [ -f "$d/OBSOLETE" ]; then echo "| $name | $id | - | - | skipped | obsolete: $(head -1 $d/OBSOLETE) |" >> seeded/MATRIX.md; continue; fi
   PATCH="/verif/$d/patch.diff"; [ -f "$d/patch.ported.diff" ] && PATCH="/verif/$d/patch.ported.diff"
